@@ -191,9 +191,9 @@ fn tie(args: &Args, report: &mut Report, rng: &mut Rng, inputs: &[(String, Strin
         let sexpr = verif::ir_to_sexpr(&docs);
         let d2 = docs.clone();
         let c2 = cfg.clone();
-        let printed = match vh_common::catch(move || verif::print_ir(&d2, &c2)) {
+        let printed = match std::panic::catch_unwind(std::panic::AssertUnwindSafe(|| verif::print_ir(&d2, &c2))) {
             Ok(p) => format!("ok {}", hex(&p)),
-            Err(m) => format!("err panic ({m})"),
+            Err(_) => "err panic".to_string(),
         };
         reqs.push(format!("printer.print {} {}", cfg_str(&cfg), sexpr));
         expect.push((printed, json!({"kind": "random-ir", "sexpr": sexpr, "config": cname, "cfg": cfg_str(&cfg)})));
@@ -220,6 +220,50 @@ fn tie(args: &Args, report: &mut Report, rng: &mut Rng, inputs: &[(String, Strin
             report.sample(json!({"kind": "tie random IR", "sexpr": input["sexpr"], "cfg": input["cfg"], "printed_hex": m}));
         }
     }
+}
+
+/// predicate names (computed from the input and the configuration only) for the known C06 findings
+pub fn classify6(text: &str, cfg: &LuaFormatConfig) -> Option<&'static str> {
+    use emmylua_parser::{LuaKind, LuaParser, LuaSyntaxKind, LuaTokenKind, ParserConfig};
+    let tree = LuaParser::parse(text, ParserConfig::with_level(LEVEL));
+    if tree.has_syntax_errors() {
+        return None;
+    }
+    let root = tree.get_red_root();
+    let mut multiline_token = false;
+    let mut multiline_seq = false;
+    for el in root.descendants_with_tokens() {
+        match el {
+            rowan::NodeOrToken::Token(t) => {
+                let k: LuaTokenKind = t.kind().into();
+                if !matches!(k, LuaTokenKind::TkEndOfLine | LuaTokenKind::TkWhitespace) && t.text().contains('\n') && t.text().trim_end().contains('\n') {
+                    multiline_token = true;
+                }
+            }
+            rowan::NodeOrToken::Node(n) => {
+                if let LuaKind::Syntax(k) = n.kind() {
+                    if matches!(k, LuaSyntaxKind::TableArrayExpr | LuaSyntaxKind::TableObjectExpr | LuaSyntaxKind::TableEmptyExpr | LuaSyntaxKind::CallArgList | LuaSyntaxKind::ParamList)
+                        && n.text().contains_char('\n')
+                    {
+                        multiline_seq = true;
+                    }
+                }
+            }
+        }
+    }
+    if multiline_token {
+        return Some("input-has-multi-line-token");
+    }
+    if multiline_seq {
+        return Some("input-has-multi-line-table-call-or-parameter-list");
+    }
+    let mut wide = cfg.clone();
+    wide.layout.max_line_width = 1_000_000;
+    let src = SourceText { text, level: LEVEL };
+    if reformat_lua_code(&src, cfg) != reformat_lua_code(&src, &wide) {
+        return Some("line-width-limit-forces-line-breaks");
+    }
+    None
 }
 
 /// the two properties' oracles on one (text, config); returns (C05 failure, C06 failure)
@@ -324,8 +368,12 @@ pub fn run(args: &Args, report: &mut Report) {
             if text.lines().count() >= 2 && seen.insert((i, ci)) {
                 report.distinct_nontrivial += 1;
             }
+            if want6 {
+                if let Some(c) = classify6(text, cfg) { report.count(&format!("class_{c}")); } else { report.count("class_none"); }
+            }
             if let Some(what) = if want6 { f6 } else { f5 } {
-                report.oracle_failure(json!({"input": {"kind": "format", "source": name, "text": text, "config": cname}, "what": what, "class": classify(text)}));
+                let class = if want6 { classify6(text, cfg) } else { classify(text) };
+                report.oracle_failure(json!({"input": {"kind": "format", "source": name, "text": text, "config": cname}, "what": what, "class": class}));
             }
         }
         if i == 12 {
@@ -348,7 +396,7 @@ pub fn run(args: &Args, report: &mut Report) {
         report.evaluations += 1;
         let (f5, f6) = check_format(&t, &cfgs[i % cfgs.len()].1, report);
         if let Some(what) = if want6 { f6 } else { f5 } {
-            report.oracle_failure(json!({"input": {"kind": "format", "source": "mutated", "text": t, "config": cfgs[i % cfgs.len()].0}, "what": what, "class": classify(&t)}));
+            report.oracle_failure(json!({"input": {"kind": "format", "source": "mutated", "text": t, "config": cfgs[i % cfgs.len()].0}, "what": what, "class": if want6 { classify6(&t, &cfgs[i % cfgs.len()].1) } else { classify(&t) }}));
         }
     }
     report.rule = "tie: IRs dumped from formatting the inputs (hook format_to_ir) and seeded random IRs over all node kinds x configurations (incl. narrow widths, comment columns), model printer vs real printer byte for byte; non-trivial = IR containing a group, fill or align group, distinct by request. oracle: hand-written corpus + grammar-generated valid Lua (messy layout, comments, doc tags) + the std library annotation files (whole and by paragraphs) + inputs with syntax errors (hand-written and one-byte deletions) x formatter configurations; non-trivial = input with >= 2 lines, distinct by (input, config)".into();
